@@ -10,9 +10,9 @@
 (* replay, whose expectations TLC derived from the small abstract value    *)
 (* and which are length-independent (size lemmas of Deb822Value).          *)
 (* A trace is [objs, deep, events]: objs = the LIVE objects, each          *)
-(* [cls |-> "Deb822" | "Dsc" | "Changes" | "BuildInfo" | "Release", para   *)
-(* |-> paragraph]; a paragraph is a sequence of [k, v] (code point         *)
-(* sequences).  An event is                                                *)
+(* [cls |-> "Deb822" | "Dsc" | "Changes" | "BuildInfo" | "Release" |       *)
+(* "PdiffIndex", para |-> paragraph]; a paragraph is a sequence of [k, v]  *)
+(* (code point sequences).  An event is                                    *)
 (*   [obj, cls, key, v, acc, res, items, rb]:                              *)
 (*   obj    index of the live object assigned to; 0 = a throw-away object  *)
 (*          of class cls receiving v under a MULTIVALUED key (Files ...),  *)
@@ -26,8 +26,14 @@
 (*          list per paragraph)], for the input forms s (str),             *)
 (*          f (io.StringIO), b (io.BytesIO) and the settings F             *)
 (*          (whitespace-separates-paragraphs: False) and T (default):      *)
-(*          sF sT fF fT bF bT; stored as a table of the distinct           *)
-(*          observations (rb.o) and an index per name (rb.ix).             *)
+(*          sF sT fF fT bF bT; plus wF / wT: the dump read back through    *)
+(*          ONE of the ways the object's own class offers (e.way: Cls(x,   *)
+(*          strict) or Cls.iter_paragraphs(x, strict), x = str / bytes /   *)
+(*          list / StringIO / BytesIO, strict by keyword or positionally;  *)
+(*          rotating; the way with the known deviation -- gpg-aware class, *)
+(*          list / file input, positional strict -- is left to the CASE    *)
+(*          replay).  Stored as a table of the distinct observations       *)
+(*          (rb.o) and an index per name (rb.ix).                          *)
 (* The reference is HISTORY-FREE (Deb822ValueHist): an event is explained  *)
 (* by the class, the key and the value alone, whatever happened before --  *)
 (*   - acc agrees with Classify(v) where the statement decides ("accept" / *)
@@ -70,13 +76,53 @@ N_checksums_sha512 == <<99, 104, 101, 99, 107, 115, 117, 109, 115, 45, 115, 104,
 N_files == <<102, 105, 108, 101, 115>>
 N_md5sum == <<109, 100, 53, 115, 117, 109>>
 N_sha1 == <<115, 104, 97, 49>>
+N_sha1_current == <<115, 104, 97, 49, 45, 99, 117, 114, 114, 101, 110, 116>>
+N_sha1_download == <<115, 104, 97, 49, 45, 100, 111, 119, 110, 108, 111, 97, 100>>
+N_sha1_history == <<115, 104, 97, 49, 45, 104, 105, 115, 116, 111, 114, 121>>
+N_sha1_patches == <<115, 104, 97, 49, 45, 112, 97, 116, 99, 104, 101, 115>>
 N_sha256 == <<115, 104, 97, 50, 53, 54>>
+N_sha256_current == <<115, 104, 97, 50, 53, 54, 45, 99, 117, 114, 114, 101, 110, 116>>
+N_sha256_download == <<115, 104, 97, 50, 53, 54, 45, 100, 111, 119, 110, 108, 111, 97, 100>>
+N_sha256_history == <<115, 104, 97, 50, 53, 54, 45, 104, 105, 115, 116, 111, 114, 121>>
+N_sha256_patches == <<115, 104, 97, 50, 53, 54, 45, 112, 97, 116, 99, 104, 101, 115>>
 N_sha512 == <<115, 104, 97, 53, 49, 50>>
+N_x_unmerged_sha1_download == <<120, 45, 117, 110, 109, 101, 114, 103, 101, 100, 45, 115, 104, 97, 49, 45, 100, 111, 119, 110, 108, 111, 97, 100>>
+N_x_unmerged_sha1_history == <<120, 45, 117, 110, 109, 101, 114, 103, 101, 100, 45, 115, 104, 97, 49, 45, 104, 105, 115, 116, 111, 114, 121>>
+N_x_unmerged_sha1_patches == <<120, 45, 117, 110, 109, 101, 114, 103, 101, 100, 45, 115, 104, 97, 49, 45, 112, 97, 116, 99, 104, 101, 115>>
+N_x_unmerged_sha256_download == <<120, 45, 117, 110, 109, 101, 114, 103, 101, 100, 45, 115, 104, 97, 50, 53, 54, 45, 100, 111, 119, 110, 108, 111, 97, 100>>
+N_x_unmerged_sha256_history == <<120, 45, 117, 110, 109, 101, 114, 103, 101, 100, 45, 115, 104, 97, 50, 53, 54, 45, 104, 105, 115, 116, 111, 114, 121>>
+N_x_unmerged_sha256_patches == <<120, 45, 117, 110, 109, 101, 114, 103, 101, 100, 45, 115, 104, 97, 50, 53, 54, 45, 112, 97, 116, 99, 104, 101, 115>>
 MultiNames(cls) == CASE cls = "Deb822" -> {}
-  [] cls = "Dsc" -> {N_files, N_checksums_sha1, N_checksums_sha256, N_checksums_sha512}
-  [] cls = "Changes" -> {N_files, N_checksums_sha1, N_checksums_sha256, N_checksums_sha512}
-  [] cls = "BuildInfo" -> {N_checksums_md5, N_checksums_sha1, N_checksums_sha256, N_checksums_sha512}
-  [] cls = "Release" -> {N_md5sum, N_sha1, N_sha256, N_sha512}
+  [] cls = "Dsc" -> {N_checksums_sha1,
+        N_checksums_sha256,
+        N_checksums_sha512,
+        N_files}
+  [] cls = "Changes" -> {N_checksums_sha1,
+        N_checksums_sha256,
+        N_checksums_sha512,
+        N_files}
+  [] cls = "BuildInfo" -> {N_checksums_md5,
+        N_checksums_sha1,
+        N_checksums_sha256,
+        N_checksums_sha512}
+  [] cls = "Release" -> {N_md5sum,
+        N_sha1,
+        N_sha256,
+        N_sha512}
+  [] cls = "PdiffIndex" -> {N_sha1_current,
+        N_sha1_download,
+        N_sha1_history,
+        N_sha1_patches,
+        N_sha256_current,
+        N_sha256_download,
+        N_sha256_history,
+        N_sha256_patches,
+        N_x_unmerged_sha1_download,
+        N_x_unmerged_sha1_history,
+        N_x_unmerged_sha1_patches,
+        N_x_unmerged_sha256_download,
+        N_x_unmerged_sha256_history,
+        N_x_unmerged_sha256_patches}
 IsMultiKeyC(cls, k) == \E m \in MultiNames(cls) : SameName(k, m)
 
 TInit == /\ tid \in 1..Len(Traces)
@@ -91,8 +137,8 @@ After(e) == IF e.acc THEN e.items[e.obj] ELSE ps[e.obj]
 
 \* rb = [o |-> <<distinct observations>>, ix |-> [sF |-> index into o, ...]]
 RBof(e, n) == e.rb.o[e.rb.ix[n]]
-FNames == {"sF", "fF", "bF"}
-TNames == {"sT", "fT", "bT"}
+FNames == {"sF", "fF", "bF", "wF"}
+TNames == {"sT", "fT", "bT", "wT"}
 
 \* name -> truth value of each obligation; an event is explained when all hold
 Checks(e) == LET cls == Classify(e.v)
